@@ -47,7 +47,8 @@ def run(ctx, info):
     from ..expected import load_expectations
     ctx.trusted += ["T-algo's elitism classification (syntactic: WMap element expressions whose every return path is a greedy selection / the incumbent; "
                     "pooled helpers) and the hypothesis step_conforms (the step edits the population only through the listed writes)"]
-    ctx.assumptions += ["no agent has a NaN cost; population_size >= 1"]
+    ctx.assumptions += ["no agent has a NaN cost; population_size >= 1",
+                        "17 further optimizers (expectations.json: elitist_observed) are covered by SEARCH ONLY: monotone in every run on the pinned tree, pinned by source hash"]
     st = info.get("regen", {})
     sks = st.get("_skeletons", {})
     pinned = load_expectations()["elitist"]
@@ -66,6 +67,20 @@ def run(ctx, info):
                 mm = r.choice(["min", "max"])
                 jobs.append({"opt": nm, "cfg": {"max_cycles": mc, "fitness_error": None},
                              "task": search.cont_task(obj=obj, minmax=mm, seed=r.randint(0, 10**6), dim=r.choice([2, 3]), lo=-5.0, hi=5.0)})
+    # optimizers T-algo cannot classify but which were monotone in every run on the pinned tree: search only, pinned by the hash of their source
+    observed = load_expectations().get("elitist_observed", {})
+    changed = sorted(n for n, fp in observed.items() if n in sks and sks[n].get("src_fingerprint") != fp)
+    ctx.coverage["elitist_observed"] = {"pinned": len(observed), "source_changed": changed}
+    for n in changed:
+        ctx.broke(f"elitist-observed:{n}", f"the source of {n} (elitist by observation on the pinned tree: no machine-checked argument) differs from the reviewed one")
+    for nm in observed:
+        P0 = search.fixture_scale(nm)["population_size"]
+        reps = 40 if nm in changed else (2 if ctx.quick else 12)
+        for i in range(reps):
+            P = r.choice([P0, int(P0 * 1.5), 2 * P0, P0 + 1, P0 + 2, P0 + 3, P0 + 6, P0 + 11]) if (nm in changed or i % 2) else P0
+            jobs.append({"opt": nm, "cfg": {"max_cycles": r.choice([5, 10, 20, 40]), "population_size": P, "fitness_error": None},
+                         "task": search.cont_task(obj=r.choice(["sphere", "rastrigin", "step", "linear"]), minmax=r.choice(["min", "max"]), seed=r.randint(0, 10**6),
+                                                  dim=r.choice([2, 3, 5]), lo=-5.0, hi=5.0)})
     obs = search.run_jobs(jobs)
     n_ok = 0
     for o in obs:
